@@ -444,3 +444,324 @@ Proof.
   - (* ext put *) cbn. lia.
   - (* ext del *) cbn. lia.
 Qed.
+
+(* ---------- the store as a map (no second actor, no faults) ------------------------------------------ *)
+
+Definition cellw (w : world) (x : nat) : option cell := nth_error (heap (w_cl w)) x.
+(* the abstraction: identifier -> payload of the live server document *)
+Definition absmap (w : world) (i : ident) : option val := option_map snd (live (w_sv w) i).
+
+Record Inv (c : cfg) (w : world) : Prop := mkInv {
+  inv_keys : forall i d, sget (w_sv w) i = Some d -> legal i = true;
+  inv_nodup : NoDup (map fst (w_sv w));
+  inv_cells : forall x ce, cellw w x = Some ce ->
+      legal (c_id ce) = true /\ (c_src ce = "" \/ c_src ce = generate_source c (c_id ce));
+  inv_revs : forall i, legal i = true ->
+      sassoc (doc_url c i) (revs (w_cl w)) = option_map fst (live (w_sv w) i);
+  inv_cache : forall i x, sassoc i (cache (w_cl w)) = Some x -> exists ce, cellw w x = Some ce /\ c_id ce = i
+}.
+
+Lemma doc_url_inj c i j : doc_url c i = doc_url c j -> i = j.
+Proof.
+  unfold doc_url. intros H. apply append_inv_head in H. cbn in H. injection H as H. now apply quote_inj.
+Qed.
+
+Lemma aset_keys_nodup {B} k (v : B) l : NoDup (map fst l) -> NoDup (map fst (aset k v l)).
+Proof.
+  induction l as [|[k' v'] r IH]; cbn; intros H.
+  - constructor; [tauto|constructor].
+  - inversion H as [|? ? Hni Hnd]; subst. destruct (String.eqb_spec k k') as [->|Hne]; cbn.
+    + now constructor.
+    + constructor; [|auto]. intros Hin. apply Hni. clear -Hin Hne.
+      induction r as [|[k2 v2] r IH]; cbn in *; [destruct Hin; [congruence|tauto]|].
+      destruct (String.eqb_spec k k2) as [->|]; cbn in *; [exact Hin|]. destruct Hin; [auto|right; auto].
+Qed.
+Lemma sassoc_In' {B} k (l : list (string * B)) x : sassoc k l = Some x -> In (k, x) l.
+Proof.
+  induction l as [|[k' v'] r IH]; cbn; [discriminate|].
+  destruct (String.eqb_spec k k') as [->|]; intros H; [injection H as ->; now left|right; auto].
+Qed.
+Lemma In_sassoc' {B} k (l : list (string * B)) x : NoDup (map fst l) -> In (k, x) l -> sassoc k l = Some x.
+Proof.
+  induction l as [|[k' v'] r IH]; cbn; [tauto|].
+  intros Hnd [E|Hin]; inversion Hnd as [|? ? Hni Hnd']; subst.
+  - injection E as -> ->. now rewrite String.eqb_refl.
+  - destruct (String.eqb_spec k k') as [->|]; [|auto].
+    exfalso. apply Hni. apply in_map_iff. now exists (k', x).
+Qed.
+
+Lemma live_ids_nodup sv : NoDup (map fst sv) -> NoDup (live_ids sv).
+Proof.
+  unfold live_ids. induction sv as [|[k d] r IH]; cbn; intros H; [constructor|].
+  inversion H as [|? ? Hni Hnd]; subst. destruct (is_live (k, d)); cbn; [|auto].
+  constructor; [|auto]. intros Hin. apply Hni. apply in_map_iff in Hin. destruct Hin as [[k2 d2] [E Hin]].
+  cbn in E. subst k2. apply filter_In in Hin. apply in_map_iff. exists (k, d2). tauto.
+Qed.
+Lemma live_ids_spec sv i : NoDup (map fst sv) -> (In i (live_ids sv) <-> live sv i <> None).
+Proof.
+  intros Hnd. unfold live_ids, live, sget. split.
+  - intros Hin. apply in_map_iff in Hin. destruct Hin as [[k d] [E Hin]]. cbn in E. subst k.
+    apply filter_In in Hin. destruct Hin as [Hin Hl]. rewrite (In_sassoc' i sv d Hnd Hin).
+    destruct d as [r [v|]]; [discriminate|discriminate Hl].
+  - intros H. destruct (sassoc i sv) as [[r [v|]]|] eqn:E; try congruence.
+    apply sassoc_In' in E. apply in_map_iff. exists (i, mkDoc r (Some v)). split; [reflexivity|].
+    apply filter_In. split; [exact E|reflexivity].
+Qed.
+
+Lemma insert_sorted_perm x l : Permutation (insert_sorted x l) (x :: l).
+Proof.
+  induction l as [|y r IH]; cbn; [reflexivity|]. destruct (String.leb x y); [reflexivity|].
+  rewrite IH. apply perm_swap.
+Qed.
+Lemma isort_perm l : Permutation (isort l) l.
+Proof. induction l as [|x r IH]; cbn; [constructor|]. rewrite insert_sorted_perm. now constructor. Qed.
+
+Lemma Inv_init c pool : Forall (fun p => legal (fst p) = true) pool -> Inv c (init pool).
+Proof.
+  intros Hp. constructor; cbn.
+  - discriminate.
+  - constructor.
+  - intros x ce H. unfold cellw in H. cbn in H. apply nth_error_In in H. apply in_map_iff in H.
+    destruct H as [p [<- Hin]]. cbn. rewrite Forall_forall in Hp. split; [now apply Hp|now left].
+  - reflexivity.
+  - discriminate.
+Qed.
+
+(* cells keep their id under the heap updates the client performs *)
+Lemma cellw_upd_same w x f ce sv' rv' ca' :
+  cellw w x = Some ce ->
+  cellw (mkWorld sv' (mkClient (upd_cell (heap (w_cl w)) x f) rv' ca')) x = Some (f ce).
+Proof. unfold cellw. cbn. apply nth_upd_same. Qed.
+Lemma cellw_upd_other w x y f sv' rv' ca' : x <> y ->
+  cellw (mkWorld sv' (mkClient (upd_cell (heap (w_cl w)) x f) rv' ca')) y = cellw w y.
+Proof. unfold cellw. cbn. apply nth_upd_other. Qed.
+
+(* a heap update at x by an id-preserving function that keeps (or correctly sets) the source *)
+Lemma Inv_cells_upd c w x f sv' rv' ca' :
+  (forall y ce, cellw w y = Some ce ->
+      legal (c_id ce) = true /\ (c_src ce = "" \/ c_src ce = generate_source c (c_id ce))) ->
+  (forall ce, cellw w x = Some ce -> c_id (f ce) = c_id ce /\
+      (c_src (f ce) = "" \/ c_src (f ce) = generate_source c (c_id ce))) ->
+  forall y ce, cellw (mkWorld sv' (mkClient (upd_cell (heap (w_cl w)) x f) rv' ca')) y = Some ce ->
+      legal (c_id ce) = true /\ (c_src ce = "" \/ c_src ce = generate_source c (c_id ce)).
+Proof.
+  intros Hc Hf y ce H. destruct (Nat.eq_dec x y) as [<-|Hne].
+  - destruct (cellw w x) as [ce0|] eqn:E.
+    + rewrite (cellw_upd_same w x f ce0 sv' rv' ca' E) in H. injection H as <-.
+      destruct (Hf ce0 eq_refl) as [Hid Hs]. rewrite Hid. split; [now apply (Hc x ce0)|exact Hs].
+    + unfold cellw in *. cbn in H. exfalso. apply nth_error_None in E.
+      assert (nth_error (upd_cell (heap (w_cl w)) x f) x = None) by (apply nth_error_None; now rewrite upd_length).
+      congruence.
+  - rewrite cellw_upd_other in H by exact Hne. now apply (Hc y).
+Qed.
+Lemma Inv_cache_upd w x f sv' rv' ca' :
+  (forall ce, cellw w x = Some ce -> c_id (f ce) = c_id ce) ->
+  (forall i y, sassoc i ca' = Some y -> exists ce, cellw w y = Some ce /\ c_id ce = i) ->
+  forall i y, sassoc i ca' = Some y ->
+    exists ce, cellw (mkWorld sv' (mkClient (upd_cell (heap (w_cl w)) x f) rv' ca')) y = Some ce /\ c_id ce = i.
+Proof.
+  intros Hf Hc i y H. destruct (Hc i y H) as (ce & Hy & Hi). destruct (Nat.eq_dec x y) as [<-|Hne].
+  - exists (f ce). split; [now apply cellw_upd_same|]. now rewrite (Hf ce Hy).
+  - exists ce. split; [now rewrite cellw_upd_other|exact Hi].
+Qed.
+
+Lemma revs_aset c i r rv j sv' :
+  legal j = true ->
+  (live sv' i = Some r) ->
+  (i <> j -> sassoc (doc_url c j) rv = option_map fst (live sv' j)) ->
+  sassoc (doc_url c j) (aset (doc_url c i) (fst r) rv) = option_map fst (live sv' j).
+Proof.
+  intros Hl Hi Hj. destruct (String.eqb_spec i j) as [->|Hne].
+  - rewrite aset_same, Hi. reflexivity.
+  - rewrite aset_other; [now apply Hj|]. intros E. apply Hne. now apply doc_url_inj in E.
+Qed.
+
+Lemma sget_aset_keys sv i d j d' : sget (aset i d sv) j = Some d' -> j = i \/ sget sv j = Some d'.
+Proof.
+  unfold sget. destruct (String.eqb_spec i j) as [->|Hne]; [now left|]. rewrite aset_other by exact Hne. now right.
+Qed.
+
+(* ---- add *)
+Lemma add_eq c w x ce : cellw w x = Some ce -> legal (c_id ce) = true ->
+  step c None w (Add x) =
+  match live (w_sv w) (c_id ce) with
+  | Some _ => (w, OErr XKey, 1)
+  | None =>
+    let r := match sget (w_sv w) (c_id ce) with Some d => S (d_rev d) | None => 1 end in
+    (mkWorld (aset (c_id ce) (mkDoc r (Some (c_val ce))) (w_sv w))
+             (mkClient (upd_cell (heap (w_cl w)) x (set_src (generate_source c (c_id ce))))
+                       (aset (doc_url c (c_id ce)) r (revs (w_cl w))) (aset (c_id ce) x (cache (w_cl w)))),
+     ODone, 1)
+  end.
+Proof.
+  intros Hx Hl. unfold cellw in Hx. cbn [step]. unfold op_add, send. rewrite Hx, (serve_put c _ _ None _ Hl).
+  unfold live. destruct (sget (w_sv w) (c_id ce)) as [[r [v|]]|]; cbn; rewrite ?world_eta; reflexivity.
+Qed.
+
+Lemma Inv_write c w x ce r f :
+  Inv c w -> cellw w x = Some ce ->
+  c_id (f ce) = c_id ce ->
+  (c_src (f ce) = c_src ce \/ c_src (f ce) = generate_source c (c_id ce)) ->
+  forall ca', (ca' = cache (w_cl w) \/ ca' = aset (c_id ce) x (cache (w_cl w))) ->
+  Inv c (mkWorld (aset (c_id ce) (mkDoc r (Some (c_val ce))) (w_sv w))
+                 (mkClient (upd_cell (heap (w_cl w)) x f)
+                           (aset (doc_url c (c_id ce)) r (revs (w_cl w))) ca')).
+Proof.
+  intros HI Hx Hfid Hfsrc ca' Hca. destruct (inv_cells c w HI x ce Hx) as [Hl _]. constructor; cbn [w_sv w_cl revs cache].
+  - intros i d H. apply sget_aset_keys in H. destruct H as [->|H]; [exact Hl|now apply (inv_keys c w HI i d)].
+  - apply aset_keys_nodup. apply (inv_nodup c w HI).
+  - apply Inv_cells_upd; [apply (inv_cells c w HI)|]. intros ce0 H0. rewrite Hx in H0. injection H0 as <-.
+    split; [apply Hfid|]. destruct Hfsrc as [E|E]; rewrite E; [|now right]. now apply (inv_cells c w HI x ce).
+  - intros j Hj. change r with (fst (r, c_val ce)). apply revs_aset; [exact Hj|apply live_aset_same|].
+    intros Hne. rewrite live_aset_other by exact Hne. now apply (inv_revs c w HI).
+  - apply Inv_cache_upd; [intros ce0 H0; rewrite Hx in H0; injection H0 as <-; apply Hfid|].
+    intros i y H. destruct Hca as [-> | ->].
+    + now apply (inv_cache c w HI).
+    + destruct (String.eqb_spec (c_id ce) i) as [<-|Hne].
+      * rewrite aset_same in H. injection H as <-. now exists ce.
+      * rewrite aset_other in H by exact Hne. now apply (inv_cache c w HI).
+Qed.
+
+Lemma absmap_aset_same w i r v cl' : absmap (mkWorld (aset i (mkDoc r (Some v)) (w_sv w)) cl') i = Some v.
+Proof. unfold absmap. cbn. now rewrite live_aset_same. Qed.
+Lemma absmap_aset_other w i d j cl' : i <> j -> absmap (mkWorld (aset i d (w_sv w)) cl') j = absmap w j.
+Proof. intros H. unfold absmap. cbn. now rewrite live_aset_other. Qed.
+Lemma absmap_aset_deleted w i r cl' : absmap (mkWorld (aset i (mkDoc r None) (w_sv w)) cl') i = None.
+Proof. unfold absmap. cbn. now rewrite live_aset_deleted. Qed.
+
+Lemma add_ok c w x ce : Inv c w -> cellw w x = Some ce ->
+  let r := step c None w (Add x) in
+  Inv c (world_of r) /\
+  match absmap w (c_id ce) with
+  | Some _ => outcome_of r = OErr XKey /\ world_of r = w
+  | None => outcome_of r = ODone /\ absmap (world_of r) (c_id ce) = Some (c_val ce) /\
+            forall j, j <> c_id ce -> absmap (world_of r) j = absmap w j
+  end.
+Proof.
+  intros HI Hx. destruct (inv_cells c w HI x ce Hx) as [Hl _]. cbn zeta. rewrite (add_eq c w x ce Hx Hl).
+  unfold absmap at 1. destruct (live (w_sv w) (c_id ce)) as [[r v]|]; cbn [option_map world_of outcome_of fst snd].
+  - auto.
+  - split; [|split; [reflexivity|split]].
+    + apply Inv_write; auto.
+    + apply absmap_aset_same.
+    + intros j Hj. apply absmap_aset_other. congruence.
+Qed.
+
+(* ---- get / iteration *)
+Lemma get_doc_spec c n w i r v : Inv c w -> legal i = true -> live (w_sv w) i = Some (r, v) ->
+  exists w' y, get_doc c None n w i = (w', inr y) /\ w_sv w' = w_sv w /\ Inv c w' /\
+    cellw w' y = Some (mkCell i v (generate_source c i)) /\
+    (forall z ce, cellw w z = Some ce -> c_id ce <> i -> cellw w' z = Some ce).
+Proof.
+  intros HI Hl Hv. unfold get_doc, send.
+  rewrite (serve_read c (w_sv w) i GET None None Hl (or_introl eq_refl)), Hv. cbn [do_request fst snd]. cbn.
+  assert (Hrevs : forall j, legal j = true ->
+            sassoc (doc_url c j) (aset (doc_url c i) r (revs (w_cl w))) = option_map fst (live (w_sv w) j)).
+  { intros j Hj. change r with (fst (r, v)). apply revs_aset; [exact Hj|exact Hv|]. intros _. now apply (inv_revs c w HI). }
+  assert (Hfresh : exists w' y,
+     (mkWorld (w_sv w) (mkClient (heap (w_cl w) ++ [mkCell i v (generate_source c i)])%list
+                                 (aset (doc_url c i) r (revs (w_cl w)))
+                                 (aset i (List.length (heap (w_cl w))) (cache (w_cl w)))),
+      @inr exn nat (List.length (heap (w_cl w)))) = (w', inr y) /\ w_sv w' = w_sv w /\ Inv c w' /\
+     cellw w' y = Some (mkCell i v (generate_source c i)) /\
+     (forall z ce, cellw w z = Some ce -> c_id ce <> i -> cellw w' z = Some ce)).
+  { eexists; eexists. split; [reflexivity|]. split; [reflexivity|].
+    assert (Hold : forall z ce, cellw w z = Some ce ->
+              cellw (mkWorld (w_sv w) (mkClient (heap (w_cl w) ++ [mkCell i v (generate_source c i)])%list
+                      (aset (doc_url c i) r (revs (w_cl w))) (aset i (List.length (heap (w_cl w))) (cache (w_cl w))))) z = Some ce).
+    { intros z ce Hz. unfold cellw in *. cbn. rewrite nth_error_app1; [exact Hz|]. apply nth_error_Some. congruence. }
+    assert (Hnew : cellw (mkWorld (w_sv w) (mkClient (heap (w_cl w) ++ [mkCell i v (generate_source c i)])%list
+                      (aset (doc_url c i) r (revs (w_cl w))) (aset i (List.length (heap (w_cl w))) (cache (w_cl w)))))
+                     (List.length (heap (w_cl w))) = Some (mkCell i v (generate_source c i))).
+    { unfold cellw. cbn. rewrite nth_error_app2 by lia. now rewrite Nat.sub_diag. }
+    split; [|split; [exact Hnew|intros z ce Hz _; now apply Hold]].
+    constructor; cbn [w_sv w_cl revs cache].
+    - apply (inv_keys c w HI).
+    - apply (inv_nodup c w HI).
+    - intros z ce Hz. unfold cellw in Hz. cbn in Hz.
+      destruct (Nat.lt_ge_cases z (List.length (heap (w_cl w)))) as [Hlt|Hge].
+      + rewrite nth_error_app1 in Hz by exact Hlt. now apply (inv_cells c w HI z).
+      + rewrite nth_error_app2 in Hz by exact Hge. destruct (z - List.length (heap (w_cl w))) as [|k]; cbn in Hz.
+        * injection Hz as <-. cbn. split; [exact Hl|now right].
+        * destruct k; discriminate.
+    - exact Hrevs.
+    - intros j y H. destruct (String.eqb_spec i j) as [<-|Hne].
+      + rewrite aset_same in H. injection H as <-. eexists. split; [exact Hnew|reflexivity].
+      + rewrite aset_other in H by exact Hne. destruct (inv_cache c w HI j y H) as (ce & Hy & Hi).
+        exists ce. split; [now apply Hold|exact Hi]. }
+  destruct (sassoc i (cache (w_cl w))) as [old|] eqn:Ec; [|exact Hfresh].
+  destruct (nth_error (heap (w_cl w)) old) as [oc|] eqn:Eo; [|exact Hfresh].
+  destruct (String.eqb_spec (c_src oc) (generate_source c i)) as [Es|_]; [|exact Hfresh].
+  destruct (inv_cache c w HI i old Ec) as (ce0 & Hc0 & Hid0). unfold cellw in Hc0. rewrite Eo in Hc0. injection Hc0 as <-.
+  eexists; eexists. split; [reflexivity|]. split; [reflexivity|].
+  set (f := fun ce : cell => mkCell i v (c_src ce)).
+  split; [|split].
+  - constructor; cbn [w_sv w_cl revs cache].
+    + apply (inv_keys c w HI).
+    + apply (inv_nodup c w HI).
+    + apply Inv_cells_upd; [apply (inv_cells c w HI)|]. intros ce1 H1. unfold cellw in H1. rewrite Eo in H1.
+      injection H1 as <-. cbn. split; [now rewrite Hid0|]. right. now rewrite Hid0.
+    + exact Hrevs.
+    + apply Inv_cache_upd; [|apply (inv_cache c w HI)]. intros ce1 H1. unfold cellw in H1. rewrite Eo in H1.
+      injection H1 as <-. cbn. now rewrite Hid0.
+  - rewrite (cellw_upd_same w old f oc); [|exact Eo]. unfold f. now rewrite Es.
+  - intros z ce Hz Hne. destruct (Nat.eq_dec old z) as [<-|Hoz].
+    + unfold cellw in Hz. rewrite Eo in Hz. injection Hz as <-. congruence.
+    + now rewrite cellw_upd_other.
+Qed.
+
+Lemma get_doc_missing c n w i : legal i = true -> live (w_sv w) i = None ->
+  get_doc c None n w i = (w, inl XKey).
+Proof.
+  intros Hl Hv. unfold get_doc, send.
+  rewrite (serve_read c (w_sv w) i GET None None Hl (or_introl eq_refl)), Hv. cbn. now rewrite world_eta.
+Qed.
+
+Lemma get_ok c w i : Inv c w -> legal i = true ->
+  let r := step c None w (GetId i) in
+  Inv c (world_of r) /\ (forall j, absmap (world_of r) j = absmap w j) /\
+  match absmap w i with
+  | None => outcome_of r = OErr XKey
+  | Some v => exists y ce, outcome_of r = OCell y /\ cellw (world_of r) y = Some ce /\ c_id ce = i /\ c_val ce = v
+  end.
+Proof.
+  intros HI Hl. cbn zeta. cbn [step]. unfold op_get, absmap at 3.
+  destruct (live (w_sv w) i) as [[r v]|] eqn:Ev; cbn [option_map snd].
+  - destruct (get_doc_spec c 0 w i r v HI Hl Ev) as (w' & y & E & Hsv & HI' & Hy & _). rewrite E.
+    cbn [world_of outcome_of fst snd]. split; [exact HI'|]. split; [intros j; unfold absmap; now rewrite Hsv|].
+    eexists; eexists. split; [reflexivity|]. split; [exact Hy|]. split; reflexivity.
+  - rewrite (get_doc_missing c 0 w i Hl Ev). cbn. auto.
+Qed.
+
+Lemma Forall2_weaken {A B} (P Q : A -> B -> Prop) l1 l2 :
+  (forall a b, P a b -> Q a b) -> Forall2 P l1 l2 -> Forall2 Q l1 l2.
+Proof. intros H F. induction F; constructor; auto. Qed.
+
+(* the rows of _all_docs are fetched one by one; cells returned earlier are not disturbed by later fetches *)
+Lemma fetch_all_spec c : forall ids n w acc,
+  Inv c w -> NoDup ids -> (forall i, In i ids -> legal i = true /\ live (w_sv w) i <> None) ->
+  exists w' l, fetch_all c None n w ids acc = (w', OCells (List.rev acc ++ l)%list, n + List.length ids) /\
+    w_sv w' = w_sv w /\ Inv c w' /\
+    Forall2 (fun y i => exists ce, cellw w' y = Some ce /\ c_id ce = i /\ absmap w i = Some (c_val ce)) l ids /\
+    (forall z ce, cellw w z = Some ce -> ~ In (c_id ce) ids -> cellw w' z = Some ce).
+Proof.
+  induction ids as [|i rest IH]; intros n w acc HI Hnd Hids; cbn [fetch_all].
+  - exists w, []. rewrite app_nil_r, Nat.add_0_r. split; [reflexivity|]. split; [reflexivity|].
+    split; [exact HI|]. split; [constructor|]. intros z ce Hz _. exact Hz.
+  - inversion Hnd as [|? ? Hni Hnd']; subst. destruct (Hids i (or_introl eq_refl)) as [Hl Hlive].
+    destruct (live (w_sv w) i) as [[r v]|] eqn:Ev; [|congruence].
+    destruct (get_doc_spec c n w i r v HI Hl Ev) as (w1 & y & E & Hsv1 & HI1 & Hy & Hkeep1). rewrite E.
+    destruct (IH (S n) w1 (y :: acc) HI1 Hnd') as (w' & l & E' & Hsv' & HI' & Hall & Hkeep').
+    { intros j Hj. rewrite Hsv1. apply Hids. now right. }
+    exists w', (y :: l). split; [|split; [congruence|split; [exact HI'|split]]].
+    + rewrite E'. cbn [List.rev List.length]. rewrite <- app_assoc. cbn [app]. rewrite Nat.add_succ_r. reflexivity.
+    + constructor.
+      * exists (mkCell i v (generate_source c i)). split; [|split; [reflexivity|]].
+        -- apply Hkeep'; [exact Hy|exact Hni].
+        -- unfold absmap. now rewrite Ev.
+      * eapply Forall2_weaken; [|exact Hall]. intros a b (ce & H1 & H2 & H3). exists ce. repeat split; auto.
+        unfold absmap in *. now rewrite <- Hsv1.
+    + intros z ce Hz Hnin. apply Hkeep'.
+      * apply Hkeep1; [exact Hz|]. intros Eq. apply Hnin. now left.
+      * intros Hin. apply Hnin. now right.
+Qed.
